@@ -10,6 +10,7 @@ import (
 	"fmt"
 	"math"
 	"strconv"
+	"sync"
 	"sync/atomic"
 
 	"verif/chk"
@@ -20,7 +21,19 @@ import (
 
 func init() { chk.Register(&chk.Check{ID: "C10", Run: run, Replay: replay}) }
 
+// failures counts the reported failures per class; a class that has failed
+// often enough is not evaluated any further (every further failure costs a
+// recovered panic or a formatted message and adds nothing to the verdict).
+var failures sync.Map // class -> *atomic.Int64
+
+func saturated(class string) bool {
+	v, ok := failures.Load(class)
+	return ok && v.(*atomic.Int64).Load() >= 256
+}
+
 func report(r *chk.Run, class string, in util.CellInput, why string) {
+	v, _ := failures.LoadOrStore(class, new(atomic.Int64))
+	v.(*atomic.Int64).Add(1)
 	in2 := in
 	r.Report(chk.Violation{
 		Key:    class,
@@ -66,6 +79,9 @@ func replay(kind string, input json.RawMessage) (bool, string) {
 
 // intCase checks one integer bit pattern of width n bytes in both modes.
 func intCase(r *chk.Run, typ byte, n int, bits uint64, class string) {
+	if saturated(class) {
+		return
+	}
 	raw := make([]byte, 8)
 	binary.LittleEndian.PutUint64(raw, bits)
 	raw = raw[:n]
@@ -118,6 +134,9 @@ func f32(r *chk.Run, bits uint32) {
 	if bits&0x7f800000 == 0x7f800000 {
 		return // Inf / NaN are not storable column values
 	}
+	if saturated("float32") {
+		return
+	}
 	raw := make([]byte, 4)
 	binary.LittleEndian.PutUint32(raw, bits)
 	if why := floatCheck(raw, ref.TFloat); why != "" {
@@ -127,6 +146,9 @@ func f32(r *chk.Run, bits uint32) {
 
 func f64(r *chk.Run, bits uint64) {
 	if bits&0x7ff0000000000000 == 0x7ff0000000000000 {
+		return
+	}
+	if saturated("float64") {
 		return
 	}
 	raw := make([]byte, 8)
